@@ -50,9 +50,11 @@ PARTIAL = ('proved at program level (parser trees inside the writer domain of C0
            'with its own code, the run in front of it rewritten by the pipeline with at_start / at_end and the reference depth of the '
            'token) and C10_reindent_invariant (two token lists inside that domain with the same significant tokens whose runs at '
            'corresponding places agree after canon_ws and the removal of blanks at line edges - reindent_equiv - are formatted to the '
-           'same text): re-indentation invariance at TOKEN level; NOT proved: that lexing two texts related by the byte-level '
-           'same_modulo_line_edges gives reindent_equiv token lists (one Example), idempotence of whole programs (needs the lexer on '
-           'written text); proved and '
+           'same text): re-indentation invariance at TOKEN level; C10_idempotent_tokens (a token list inside that domain that is spelled '
+           'as the reference formatting of some token list - formatted_as: same significant tokens, every run spelled as the pipeline '
+           'rewrites the run at the same place - is written back byte for byte): idempotence at TOKEN level; NOT proved: that lexing '
+           'two texts related by the byte-level same_modulo_line_edges gives reindent_equiv token lists, and that lexing luafmt output '
+           'gives a formatted_as token list (one Example each; needs the lexer on re-indented / written text); proved and '
            'unbounded: every run-level statement about the white-space pipeline, the whole-output clauses relative to an abstract '
            'chunk list (C10_*_partial)')
 ASSUMPTIONS = ['indentwidth is an integer (0-8 in the monitor domain); programs are those on which luafmt succeeds (C09 covers success)',
@@ -88,7 +90,9 @@ CLAIM = dict(
           "the significant tokens, the runs between them, their position flags and the reference depth), C10_ref_fmt_reindent and "
           "C10_reindent_invariant (token lists with the same significant tokens and runs equal modulo line-edge blanks, both inside the "
           "domain, are formatted to the same text; non-vacuity: two layouts of a nested program with a one-line if with else, comments, "
-          "blank-line runs, tabs); proved by re-running the walk induction with the counter and the token-stream depth state threaded "
+          "blank-line runs, tabs); C10_formatted_fixed and C10_idempotent_tokens (a token list inside the domain that is spelled as the "
+          "reference formatting of some token list is written back byte for byte: formatting formatted code changes nothing, given "
+          "that the output re-lexes to such tokens); proved by re-running the walk induction with the counter and the token-stream depth state threaded "
           "(Proofs/TokenDepthProofs.v, WriterCursorD.v, AstWriterDepth.v, FmtLineEnd.v). Regex sources, guards, replacement expressions, order, and the whole function text "
           "are regenerated from lua.py on every run and pinned. Tie: the extracted model equals the real method on ALL runs of length "
           "<= 5 (thorough 6) over {space,tab,\\n,\\r,-,/,a} x 4 positions x 3 (width,depth), on random long runs, and on every "
@@ -102,8 +106,9 @@ CLAIM = dict(
           "luafmt); re-indentation invariance is proved at TOKEN level (C10_reindent_invariant: same significant tokens, runs equal "
           "modulo line-edge blanks; both layouts parsed to the end inside the writer domain); that the lexer maps texts related by the "
           "byte-level same_modulo_line_edges to such token lists, that the depth read back from the OUTPUT text is the same, and "
-          "idempotence of whole programs are OBSERVED by the extracted monitor on real output, not proved: they need the lexer on "
-          "re-indented / written text. Three genuine "
+          "that luafmt's output re-lexes to a token list spelled as the formatting (the hypothesis formatted_as of the token-level "
+          "idempotence theorem C10_idempotent_tokens) are OBSERVED by the extracted monitor on real output (outputs equal, fmt(fmt)=fmt), "
+          "not proved: they need the lexer on re-indented / written text. Three genuine "
           "defects found by this check were fixed in picotool (fix: commits, findings/known_C10.json): white-space-only line / "
           "non-idempotence after an empty line inside a block; `//` comment lines kept their input indentation; a file without final "
           "newline got one only if blanks followed its last token. Trusted: Coq "
